@@ -58,3 +58,11 @@ macro "rt_simp" : tactic =>
       Option.bind_some, Option.bind_eq_bind, Option.pure_def, bind_pure, pure_bind])
 
 end Rt
+
+/-! builder J: `usize` arithmetic of the generated comparison helpers (`Gen/UplinkStatic`, `Gen/SessionStatic`) -/
+namespace Rt
+
+theorem ck_usize {x : Int} (h1 : 0 ≤ x) (h2 : x ≤ 18446744073709551615) : ck .usize x = some x := by
+  apply ck_eq_some; simp [ITy.lo, ITy.hi, ITy.signed, ITy.bits]; omega
+
+end Rt
